@@ -1374,9 +1374,8 @@ func (q *seqGen) step() {
 			if g.Rng.Intn(6) == 0 {
 				n = g.Pick(61, 62, 63, 64, 65, 100)
 			}
-			if g.Rng.Intn(60) == 0 { // int(n) < 0: no ones at all (outside the specification's domain)
-				q.wf = false
-				q.write(1, fmt.Sprintf("wn:%d", uint64(1)<<63+uint64(g.Rng.Intn(5))))
+			if g.Rng.Intn(60) == 0 { // a count >= 2^63: ones up to the capacity, then the overflow error
+				q.write(1<<40, fmt.Sprintf("wn:%d", uint64(1)<<63+uint64(g.Rng.Intn(5))))
 				return
 			}
 			q.write(n+1, fmt.Sprintf("wn:%d", n))
